@@ -229,6 +229,52 @@ void tcp_mode() {
   }
 }
 
+// request/response over one connection: the client sends a request, shuts down its write side, the server reads the
+// request to its end, answers and closes; the client (possibly slow) must still receive the whole answer and then EOF.
+void reqresp_mode() {
+  size_t reqlen = 1 + gen(600), resplen = 1 + gen(cfg().tier ? 200000 : 30000);
+  bool slow_reader = gen(2);
+  describe("mode=reqresp fam=%s req=%zu resp=%zu%s", S->fam == P_SOCKET_FAMILY_INET ? "v4" : "v6", reqlen, resplen, slow_reader ? " slow-reader" : "");
+  S->conns.resize(2);
+  Conn &rq = S->conns[0], &rs = S->conns[1];
+  rq.id = 7001; rq.total = reqlen; rs.id = 7002; rs.total = resplen;
+  spawn(0, [&rq, &rs]() {
+    PError *e = nullptr;
+    PSocket *srv = HX_API("p_socket_new", 0, false, p_socket_new(S->fam, P_SOCKET_TYPE_STREAM, P_SOCKET_PROTOCOL_TCP, &e));
+    PSocketAddress *a = loopback(0);
+    if (!srv || !p_socket_bind(srv, a, TRUE, &e) || !p_socket_listen(srv, &e)) violate("listen_failed", "p_socket_listen", "server set-up failed");
+    p_socket_address_free(a);
+    PSocketAddress *la = p_socket_get_local_address(srv, &e); S->port = p_socket_address_get_port(la); p_socket_address_free(la);
+    S->server_ready = true;
+    for (int k = 0; k < ntasks(); k++) { Task *t = task(k); if (t->state == T_BLOCKED && t->bkind == B_HOLD) wake(t); }
+    PSocket *cs = HX_API("p_socket_accept", 0, false, p_socket_accept(srv, &e));
+    if (!cs) { check_blocking_error("p_socket_accept", e, true); violate("accept_failed", "p_socket_accept", "accept failed (code %d)", err_code(e)); }
+    run_receiver(cs, rq, true);                 // until the client's half-close
+    if (rq.received != rq.total) violate("stream_truncated", "stream", "request: %zu of %zu bytes arrived before end of stream", rq.received, rq.total);
+    run_sender(cs, rs, true);
+    HX_API_V("p_socket_free", 0, false, p_socket_free(cs));   // answer and close
+    HX_API_V("p_socket_free", 0, false, p_socket_free(srv));
+  });
+  spawn(0, [&rq, &rs, slow_reader]() {
+    while (!S->server_ready) block(B_HOLD, 1);
+    PError *e = nullptr;
+    PSocket *s = HX_API("p_socket_new", 0, false, p_socket_new(S->fam, P_SOCKET_TYPE_STREAM, P_SOCKET_PROTOCOL_TCP, &e));
+    PSocketAddress *sa = loopback(S->port);
+    if (!s || !HX_API("p_socket_connect", 0, false, p_socket_connect(s, sa, &e))) { check_blocking_error("p_socket_connect", e, true); violate("connect_failed", "p_socket_connect", "connect failed (code %d)", err_code(e)); }
+    p_socket_address_free(sa);
+    run_sender(s, rq, true);
+    if (!HX_API("p_socket_shutdown", 0, false, p_socket_shutdown(s, FALSE, TRUE, &e))) violate("shutdown_failed", "p_socket_shutdown", "half-close failed (code %d)", err_code(e));
+    probe("data.half_close");
+    if (slow_reader) sleep_until(now_ns() + 50000000ULL);      // the answer and the peer's close arrive before we start reading
+    run_receiver(s, rs, true);
+    HX_API_V("p_socket_free", 0, false, p_socket_free(s));
+  });
+  wait_all_others();
+  if (rs.received != rs.sent || rs.sent != rs.total)
+    violate("stream_truncated", "stream", "answer after half-close: server reported %zu of %zu bytes sent, client received %zu before end of stream / error", rs.sent, rs.total, rs.received);
+  probe("data.reqresp_done");
+}
+
 void udp_mode() {
   int n = (int)gen_range(2, 3);
   S->nudp = n;
@@ -315,10 +361,12 @@ void root() {
   lib_begin();
   S->fam = gen(2) ? P_SOCKET_FAMILY_INET : P_SOCKET_FAMILY_INET6;
   static const int bufs[] = {16, 64, 200, 1024, 4096, 65536};
-  bool udp = gen(4) == 0;
+  uint32_t mode = gen(8);
+  bool udp = mode <= 1, reqresp = mode == 2;
   int sb = bufs[gen(6)], rb = bufs[gen(6)];
   kern::set_net_defaults(sb, rb, false);
   if (udp) { S->net_faults = gen(2); kern::set_net_defaults(sb, rb, S->net_faults); udp_mode(); }
+  else if (reqresp) reqresp_mode();
   else tcp_mode();
   if (kern::sigpipe_deliveries()) violate("sigpipe_delivered", "send", "writing to a peer that has gone raised SIGPIPE %d time(s) instead of only returning an error", kern::sigpipe_deliveries());
   if (kern::fd_count(0)) violate("descriptor_left_open", "end", "descriptors still open after every socket was freed: %s", kern::fd_desc(0).c_str());
